@@ -39,13 +39,17 @@
 (*   Tell        BReader.Seek(0, io.SeekCurrent): position = readBytes      *)
 (*   SeekBad     BReader.Seek elsewhere: refused without side effect        *)
 (*   Stop        the caller stops after an end (clean or error)            *)
-(*   via tar*    types/blob/reader.go:ToTarReader hands BReader.reader     *)
-(*               (Tee(LimitRead(src))) to types/blob/tar.go:NewTarReader;  *)
-(*               BReader.Read and its EOF-time checks are bypassed:        *)
-(*               tarraw = BTarReader.RawBody (digest compare after         *)
-(*               ReadAll), tarwalk = BTarReader.ReadFile of an absent name *)
-(*               (digest compare after the walk), tariter = GetTarReader + *)
-(*               Next() until io.EOF (no comparison at all).               *)
+(*   via tar*    types/blob/reader.go:ToTarReader hands the BReader itself *)
+(*               (reduced to Read) to types/blob/tar.go:NewTarReader, so   *)
+(*               the tar paths read through BReader.Read and its EOF-time  *)
+(*               checks: tarraw = BTarReader.RawBody (io.ReadAll), tarwalk *)
+(*               = BTarReader.ReadFile of an absent name (walk to the end, *)
+(*               only io.EOF itself ends it), tariter = GetTarReader +     *)
+(*               Next() until io.EOF.  TarUnverified = TRUE is the code as *)
+(*               found (findings/C01-1.md, repaired by d52d44b): the inner *)
+(*               reader Tee(LimitRead(src)) was handed over, BReader.Read  *)
+(*               was bypassed; RawBody / ReadFile compared the digest only *)
+(*               and the iteration compared nothing.                       *)
 (*                                                                         *)
 (* The digest is an ideal hash: digest(x) = digest(y) iff x = y, so the    *)
 (* digester state is the sequence hashed so far.                           *)
@@ -83,7 +87,8 @@ CONSTANTS
   Conc,        \* config.Host.ReqConcurrent of the registry (regclient's default is 3)
   Probes,      \* BOOLEAN: the caller may also ask for its position / try an arbitrary seek
   Exts,        \* subset of BOOLEAN: descriptors with an external URL (descriptor.URLs)
-  KeepSlots    \* BOOLEAN: TRUE = throttle handling before the repair (findings/C01-2.md)
+  KeepSlots,   \* BOOLEAN: TRUE = throttle handling before the repair (findings/C01-2.md)
+  TarUnverified \* BOOLEAN: TRUE = tar paths as found, bypassing BReader.Read (findings/C01-1.md)
 
 VARIABLES
   scn,       \* the scenario: descriptor, stored content, scheme, access path (constant)
@@ -144,7 +149,7 @@ Inline == IF scn.data = NoData THEN <<>> ELSE scn.data
 \* types/descriptor/descriptor.go:GetData
 DataOK == Len(Inline) = scn.size /\ Inline = scn.intended
 \* which end-of-stream comparison the access path performs
-Check == CASE scn.via = "reader" -> "full"
+Check == CASE scn.via = "reader" \/ ~TarUnverified -> "full"
            [] scn.via \in {"tarraw", "tarwalk"} -> "digest"
            [] OTHER -> "none"
 KS == IF scn.via = "reader" THEN ReadSizes ELSE {Big}
